@@ -12,6 +12,7 @@ int main(int argc, char **argv){
   int d = g.dims, outs = g.outputs;
   TasmanianSparseGrid ref; makeGrid(ref, g);
   std::vector<double> target = ref.getPoints(); int N = ref.getNumPoints();
+  parseVScale(argc, argv);
   SymModel model(outs, 1000, -1.0, 1.0, g.family != "wavelet");
   ref.loadNeededValues(model.values(target, d));               // the one-batch load
   fpsym_note("target_points", N);
@@ -72,7 +73,7 @@ int main(int argc, char **argv){
     std::vector<double> probes = target;
     for (int p=0;p<2;p++) for (int j=0;j<d;j++){ double lo = g.transform ? g.ta[j] : (g.family == "fourier" ? 0.0 : -1.0), hi = g.transform ? g.tb[j] : 1.0; probes.push_back(lo + (0.29 + 0.33 * p + 0.07 * j) * (hi - lo)); }
     std::vector<double> y1, y2; grid.evaluateBatch(probes, y1); ref.evaluateBatch(probes, y2);
-    for (size_t i=0;i<y1.size();i++) fpsym_eq(y1[i], y2[i], 2.0 + N, (std::string(st) + ": surrogate equals the one-batch surrogate").c_str());
+    for (size_t i=0;i<y1.size();i++) fpsym_eq(y1[i], y2[i], (2.0 + N) * g_vscale, (std::string(st) + ": surrogate equals the one-batch surrogate").c_str());
     if (grid.getNumOutputs() > 0 && model.symbolic) fpsym_nonconst(y1[0], "witness: surrogate depends on the supplied values");
   }
   fpsym_finish(); return 0;
